@@ -224,3 +224,33 @@ def run(ctx: Ctx):
                                        theorem="Ladim.Simulation.window_rows_released (needs dt | stop - start)"),
                                   tags=dict(first="row beyond the last step" if beyond else "row not released", tail=bool(c.get("tail")) and beyond))
                     break
+
+    # ---- positions given by longitude/latitude on a loaded window whose offsets in x and y differ, through the real grid
+    # (whole runs; the stub grid above has no window): every row enters at the position its longitude/latitude name
+    from harness.props.c16 import polar_grid, run_e2e
+    from ladim.sample import sample2D
+    rr = np.random.RandomState(ctx.seed + 23)
+    ljobs = []
+    for k in range(9 if ctx.thorough else 3):
+        dx = [4000.0, 800.0, 20000.0][k % 3]
+        imax, jmax = 40, 30
+        lon, lat = polar_grid(imax, jmax, dx, xp=float(rr.uniform(-100, 200)) * 4000 / dx, yp=float(rr.uniform(600, 1200)) * 4000 / dx, ylon=float(rr.uniform(0, 60)))
+        sub = [[3, 35, 2, 27], [12, 38, 2, 20], [2, 30, 9, 28]][k % 3]
+        tg = []
+        for _ in range(5):
+            x = float(rr.uniform(sub[0] + 1.0, sub[1] - 2.5)); y = float(rr.uniform(sub[2] + 1.0, sub[3] - 2.5))
+            tg.append((float(sample2D(lon, np.array(x), np.array(y))), float(sample2D(lat, np.array(x), np.array(y))), x, y))
+        ljobs.append(dict(lon=lon, lat=lat, dx=dx, subgrid=sub, layout="sparse", targets=[(t[0], t[1]) for t in tg], truth=[(t[2], t[3]) for t in tg], numrec=0))
+    for job, g in zip(ljobs, pmap(run_e2e, ljobs)):
+        case = dict(dx=job["dx"], subgrid=job["subgrid"], rows_lonlat=job["targets"])
+        ctx.case("lonlat-release-on-window", [job["dx"], str(job["subgrid"])], sample=dict(case, result={k_: v for k_, v in g.items() if k_ != "first"}), nontrivial=True)
+        if g.get("status") != "ok":
+            ctx.violation("failing-input", "lonlat-release-on-window", case, dict(status=g.get("status")), tags=dict(first="status")); continue
+        cell_tol = 3.2e-4 * 111000.0 / job["dx"] * 1.5
+        bad = [f"row {n}: released at ({px}, {py}), its longitude/latitude are those of ({tx}, {ty})"
+               for n, ((px, py), (tx, ty)) in enumerate(zip(g["first"], job["truth"])) if abs(px - tx) > cell_tol or abs(py - ty) > cell_tol]
+        if len(g["first"]) != len(job["truth"]):
+            bad.append(f"{len(g['first'])} particles in the first record, {len(job['truth'])} rows at the start time")
+        if bad:
+            ctx.violation("failing-input", "lonlat-release-on-window", case, dict(broken=bad[:4], theorem="Ladim.C04.released_at_step (row position = Grid.ll2xy of its lon/lat, C16)"),
+                          tags=dict(first="position"))
